@@ -30,6 +30,7 @@ import progs  # noqa: E402
 K_DOT = "linkname:dot-in-last-path-element"
 K_WRAP = "linkname:bound-thunk-receiver-package-dropped"
 K_ROUTINE = "linkname:routine-name-vs-user-closure"
+K_STUB = "linkname:stub-prefix-vs-package-path"
 PATCH = "github.com/goplus/llgo/runtime/internal/lib/"
 MERGEABLE = {"linkonce", "linkonce_odr", "weak", "weak_odr", "common"}
 
@@ -256,6 +257,14 @@ def run(ctx, args):  # noqa: C901
     n_eval = 0
     nontrivial = set()
 
+    caps = {}
+
+    def report_capped(cls, key, what, obj):
+        """unknown failing inputs of one class: the first three get a replay file, the rest is counted"""
+        caps[cls] = caps.get(cls, 0) + 1
+        if caps[cls] <= 3:
+            ctx.report(key, what, obj)
+
     def model(lines):
         out, rc, err = run_lines([modeld], lines)
         if len(out) != len(lines):
@@ -315,7 +324,7 @@ def run(ctx, args):  # noqa: C901
         if any(dotted_last(p) for p in paths):
             ctx.report(K_DOT, what, {"terms": terms, "name": uh(name)})
         else:
-            ctx.report("linkname:collision:" + uh(name), what, {"terms": terms, "name": uh(name)})
+            report_capped("constructed", "linkname:collision:" + uh(name), what, {"terms": terms, "name": uh(name)})
 
     ctx.log("constructed route: %d requests, %d mismatches" % (len(reqs), len(mismatches)))
     # ---------------------------------------------------------------- programs
@@ -366,7 +375,7 @@ def run(ctx, args):  # noqa: C901
                 stats["context-dependent-" + r["kind"]] = stats.get("context-dependent-" + r["kind"], 0) + 1
                 if r["kind"] not in ("bound", "thunk", "wrapper"):
                     spec_failures.append("referring packages disagree on the name of %s: %s" % (r["str"], sorted(names)))
-                    ctx.report("linkname:context-dependent:" + r["str"], "referring packages disagree on a name", {"entity": r["str"], "names": sorted(map(str, names)), "files": files})
+                    report_capped("ctx", "linkname:context-dependent:" + r["str"], "referring packages disagree on a name", {"entity": r["str"], "names": sorted(map(str, names)), "files": files})
             owner = (term_paths(r["term"]) or [None])[0]
             for (cur, nm, ft) in r["cols"]:
                 if r["kind"] == "wrapper" and cur != owner:
@@ -385,13 +394,13 @@ def run(ctx, args):  # noqa: C901
             paths = [p for r in rs for p in term_paths(r["term"])]
             if all(v[1] for v in ents.values()):
                 # both satisfy the hypotheses of linkName_injective_partial: the theorem says this cannot happen for the model
-                ctx.report("linkname:collision-of-covered-entities:" + str(nm), what, {"entities": strs, "name": nm, "files": files})
+                report_capped("covered", "linkname:collision-of-covered-entities:" + str(nm), what, {"entities": strs, "name": nm, "files": files})
             elif any(dotted_last(p) for p in paths) and not kinds & {"bound", "thunk"}:
                 ctx.report(K_DOT, what, {"entities": strs, "name": nm, "files": files})
             elif kinds <= {"bound", "thunk"}:
                 ctx.report(K_WRAP, what, {"entities": strs, "name": nm, "files": files})
             else:
-                ctx.report("linkname:collision:%s" % nm, what, {"entities": strs, "name": nm, "files": files})
+                report_capped("inproc", "linkname:collision:%s" % nm, what, {"entities": strs, "name": nm, "files": files})
     samples.append({"tree": "main", "entity": inproc["main"][len(inproc["main"]) // 2]["str"], "names": inproc["main"][len(inproc["main"]) // 2]["cols"][:2]})
 
     # ---------------------------------------------------------------- E: compile, read symbol tables, run
@@ -447,18 +456,18 @@ def run(ctx, args):  # noqa: C901
             if len(allids) > 1:
                 what = "symbol %r is the definition of %d different source entities: %s" % (nm, len(allids), [ids1.info.get(i) for i in sorted(allids)])
                 spec_failures.append(what)
-                ctx.report("linkname:e2e-shared-name:" + nm, what, {"symbol": nm, "ids": sorted(allids), "files": f1})
+                report_capped("e2e-shared-name", "linkname:e2e-shared-name:" + nm, what, {"symbol": nm, "ids": sorted(allids), "files": f1})
         missing = [i for i in ids1.info if i not in id2names]
         for i in missing:
             what = "source entity %s (id %d) has no definition in any module: its body was dropped or merged into another symbol" % (ids1.info[i], i)
             spec_failures.append(what)
-            ctx.report("linkname:e2e-missing-entity:%s.%s" % (ids1.info[i]["pkg"], ids1.info[i]["desc"]), what, {"id": i, "entity": ids1.info[i], "files": f1})
+            report_capped("e2e-missing-entity", "linkname:e2e-missing-entity:%s.%s" % (ids1.info[i]["pkg"], ids1.info[i]["desc"]), what, {"id": i, "entity": ids1.info[i], "files": f1})
         for i, nms in sorted(id2names.items()):
             inf = ids1.info.get(i)
             if inf and inf["kind"] in ("func", "method") and len(nms) != 1:
                 what = "non-generic entity %s has %d link names: %s" % (inf, len(nms), sorted(nms))
                 spec_failures.append(what)
-                ctx.report("linkname:e2e-several-names:%s.%s" % (inf["pkg"], inf["desc"]), what, {"names": sorted(nms), "files": f1})
+                report_capped("e2e-several-names", "linkname:e2e-several-names:%s.%s" % (inf["pkg"], inf["desc"]), what, {"names": sorted(nms), "files": f1})
         # (b) same name in several modules: mergeable everywhere, equivalent bodies
         multi = 0
         for nm, lst in sorted(list(defs.items()) + list(gdefs.items())):
@@ -469,14 +478,14 @@ def run(ctx, args):  # noqa: C901
             if not lks <= MERGEABLE:
                 what = "symbol %r is defined in %d modules (%s) with linkage %s" % (nm, len(lst), [m.id for (m, _, _) in lst], sorted(lks))
                 spec_failures.append(what)
-                ctx.report("linkname:e2e-duplicate-strong:" + nm, what, {"symbol": nm, "files": f1})
+                report_capped("e2e-duplicate-strong", "linkname:e2e-duplicate-strong:" + nm, what, {"symbol": nm, "files": f1})
                 continue
             bodies = set(m.normalise(b) for (m, _, b) in lst)
             if len(bodies) > 1:
                 bl = sorted(bodies)
                 what = "mergeable symbol %r has %d different bodies in modules %s" % (nm, len(bodies), [m.id for (m, _, _) in lst])
                 spec_failures.append(what)
-                ctx.report("linkname:e2e-mergeable-differs:" + nm, what, {"symbol": nm, "bodies": bl[:2], "files": f1})
+                report_capped("e2e-mergeable-differs", "linkname:e2e-mergeable-differs:" + nm, what, {"symbol": nm, "bodies": bl[:2], "files": f1})
         stats["e2e-names-defined-in-several-modules"] = multi
         # (c) referenced symbols of generated packages are defined, by the owner
         alldef = set(defs) | set(gdefs)
@@ -490,7 +499,7 @@ def run(ctx, args):  # noqa: C901
                 if nm not in alldef:
                     what = "module %s references %r, which no generated module defines" % (m.id, nm)
                     spec_failures.append(what)
-                    ctx.report("linkname:e2e-undefined:" + nm, what, {"symbol": nm, "module": m.id, "files": f1})
+                    report_capped("e2e-undefined", "linkname:e2e-undefined:" + nm, what, {"symbol": nm, "module": m.id, "files": f1})
                     continue
                 lst = defs.get(nm) or gdefs.get(nm)
                 strong = [(dm, lk) for (dm, lk, _) in lst if lk not in MERGEABLE]
@@ -500,7 +509,7 @@ def run(ctx, args):  # noqa: C901
                     if own is not None and dm.id != own:
                         what = "symbol %r of package %s is defined by module %s" % (nm, own, dm.id)
                         spec_failures.append(what)
-                        ctx.report("linkname:e2e-wrong-owner:" + nm, what, {"symbol": nm, "files": f1})
+                        report_capped("e2e-wrong-owner", "linkname:e2e-wrong-owner:" + nm, what, {"symbol": nm, "files": f1})
         stats["e2e-cross-package-references"] = refs
         # the compiled names are the names the in-process route (and hence the model) gives, entity by entity
         exp = {}
@@ -605,6 +614,16 @@ def run(ctx, args):  # noqa: C901
             what = "user function _llgo_routine with a function literal in a package that has a go statement: " + ("llgo fails to compile (panic in ssa/goroutine.go)" if o is None else "prints %r, reference %r" % (o[1], refo[1]))
             spec_failures.append(what)
             ctx.report(K_ROUTINE, what, {"files": progs.routine_program(), "output": (p.stdout + p.stderr)[:1500]})
+
+        d = os.path.join(ctx.scratch, "t-stub")
+        write_module(d, progs.stub_prefix_program())
+        p = sh([ctx.llgo, "build", "-tags", "nogc", "-O0", "-o", os.path.join(d, "prog"), "."], cwd=d, env=env, timeout=1800)
+        o = run_prog(os.path.join(d, "prog")) if p.returncode == 0 else None
+        n_eval += 1
+        if o is None or o[1] != "3 77 77\n":
+            what = "module path __llgo_stub with func abs, and C.abs used as a function value: prints %r, expected '3 77 77'" % (o[1] if o else (p.stdout + p.stderr)[-300:])
+            spec_failures.append(what)
+            ctx.report(K_STUB, what, {"files": progs.stub_prefix_program()})
 
     # ---------------------------------------------------------------- verdict
     if mismatches:
